@@ -286,7 +286,7 @@ class CodeGenerator(nunavut._generators.AbstractGenerator):
     ) -> None:
         newline_pattern = re.compile(r"\n|\r\n", flags=re.MULTILINE)
         line_buffer = io.StringIO()
-        for part in template_gen:
+        for part in _rejoin_split_crlf(template_gen):
             search_pos = 0  # type: int
             match_obj = newline_pattern.search(part, search_pos)
             while True:
@@ -1004,3 +1004,25 @@ class SupportGenerator(CodeGenerator):
                         resource_line_tuple = line_pp(resource_line_tuple)
                     target_file.write(resource_line_tuple[0])
                     target_file.write(resource_line_tuple[1])
+
+
+# +---------------------------------------------------------------------------+
+# | HELPERS
+# +---------------------------------------------------------------------------+
+
+
+def _rejoin_split_crlf(parts: typing.Iterable[str]) -> typing.Generator[str, None, None]:
+    """
+    Yields the given parts but never lets one end with a carriage return: a trailing "\\r" is held back and
+    prepended to the next part so that a "\\r\\n" the template engine split across two parts is still seen
+    as a single line terminator by :meth:`CodeGenerator._generate_with_line_buffer`.
+    """
+    pending = ""
+    for part in parts:
+        part = pending + part
+        pending = ""
+        if part.endswith("\r"):
+            part, pending = part[:-1], "\r"
+        yield part
+    if len(pending) > 0:
+        yield pending
